@@ -1242,6 +1242,14 @@ def report_failures(ctx, res, fails, variant):
 def run(ctx, res):
     rng = ctx.rng
     thorough = ctx.tier == "thorough"
+    tm = {}
+    t_ph = time.time()
+
+    def phase(name):
+        nonlocal t_ph
+        tm[name] = round(time.time() - t_ph, 1)
+        t_ph = time.time()
+        res.extra["phase_s"] = tm
     # ---------- (a) translator + theorems -------------------------------------------------------------
     M, cl = None, []
     try:
@@ -1250,7 +1258,9 @@ def run(ctx, res):
         res.extra["funnel_table"] = M.stats
     except Unrecognised as ex:
         res.oblig("T:extraction(clang-ast)", False, "translation", "unrecognised shape / extractor failure: %s" % ex)
+    phase("translate")
     core.prove(ctx, res, MODULES, THEOREMS)
+    phase("lean")
     new_alarms = []
     if M is not None:
         res.extra["funnels"] = [dict(name=f["name"], handlers=["%s -> %s" % h for h in f["handlers"]]) for f in M.funnels]
@@ -1277,6 +1287,7 @@ def run(ctx, res):
         res.extra["finding_keys_with_alarms"] = sorted(used_findings)
     # ---------- (b) totality ----------------------------------------------------------------------------
     totality(ctx, res)
+    phase("totality")
     # ---------- (c) the real binary -----------------------------------------------------------------------
     variant = "o1"
     if thorough:
@@ -1310,6 +1321,7 @@ def run(ctx, res):
         else:
             res.extra.setdefault("witnesses_no_longer_failing", []).append(c["name"])
     report_failures(ctx, res, corpus_fail, variant)
+    phase("corpus")
     # shipped fuzz corpus + generated inputs
     seeds = source_seeds()
     ship = shipped_corpus()
@@ -1328,6 +1340,7 @@ def run(ctx, res):
         batch.append((files, args, desc, "gen-option-file"))
     fails = cli_batch(ctx, res, exe, batch, tmo, variant, workers)
     report_failures(ctx, res, fails, variant)
+    phase("cli")
     res.extra["cli_variant"] = variant
     res.extra["cli_cases"] = len(batch) + len(cases)
     # ---------- violation search: an alarm nobody accounts for --------------------------------------------
